@@ -5,8 +5,18 @@
     pint/errors.py, and feeds [Registry.elab1].  Definitions only; proofs in
     Proofs/DefFileProofs.v.
 
+    What is done here, in Coq: comment stripping, splitting at "=", whitespace stripping,
+    classification of a line, ";"-separated [key: value] modifiers, the "_" placeholder, name
+    validity, tokenisation of right-hand sides ([lex]), elaboration, and the printers
+    [print_dec] / [print_def].
+    What stays in the Python half of the reader (trusted, harness/t1_defs.py and
+    harness/c10.py [def_lines]): resolving [@import], recognising block directives and [@end],
+    i.e. which lines are definition lines.  T1's own tokeniser is compared with [lex] on every
+    right-hand side by the correspondence (CLex cases).
+
     A Coq [string] is the UTF-8 byte sequence of the Python [str]; every byte >= 128 is treated
-    as an identifier character (see [is_ident_char]) — exact on ASCII text. *)
+    as an identifier character (see [is_ident_char]) — exact on ASCII text; whitespace is ASCII
+    whitespace (space, \t \n \v \f \r). *)
 From Coq Require Import Ascii String.
 From PintV Require Import Model.UC Model.Eval Model.Registry.
 Open Scope string_scope.
